@@ -22,6 +22,8 @@ var fmtLines = []string{
 	"##!> define u [A-Z]+",
 	// a reference is text like any other for the formatter
 	"{{n}}x",
+	// a carriage return at the end of a line (with CRLF line ends: two of them)
+	"baz\r",
 }
 
 // fmtInteract: lines whose meaning depends on other lines of the file
@@ -33,7 +35,7 @@ var fmtTrouble = []string{
 	"##!> assemble extra", "##!> include inc trailing text", "##!> include-except inc", "##!> define n", "##!> define n v w", "##!<<", "##!< trailing", "##!=>x", "##! ##!^ p",
 	"##!^", "##!+", "a ##!> include inc", "##!>", "##!> cmdline", "##!>define n v",
 	// white space other than blank and TAB at the start of a line belongs to the line (the compiler strips only blanks and TABs)
-	"foo\r", "##!> define n v\r", "\ufeffabc", "\ufeff##! c", "##!^ foo \t", "##!$ bar  ", "##!+ i \t",
+	"##!> include a--b", "##!> include-except a--b ex", "foo\r", "##!> define n v\r", "\ufeffabc", "\ufeff##! c", "##!^ foo \t", "##!$ bar  ", "##!+ i \t",
 	"\ffoo", "\vbar", "\u00a0baz", " \fqux", "\f##!> assemble", "\v##!<", "\u2003##!+ i", "foo\f", "\f",
 }
 
